@@ -100,6 +100,14 @@ func (w *World) WhoReaches(kinds []string, pred func(Effect) bool) []RootHit {
 
 // SubRootKind returns the most specific kind label of a root, e.g. "MSG:stream.ClaimStream".
 func (w *World) SubRootKind(kind string, r *ssa.Function) string {
+	if kind == "ANTEALL" {
+		for _, f := range w.Roots["ANTE"] {
+			if f == r {
+				return "ANTE:" + ModuleOf(r)
+			}
+		}
+		return "ANTEALL"
+	}
 	best := kind
 	for k, fs := range w.Roots {
 		if len(k) > len(best) && len(k) > len(kind) && k[:len(kind)] == kind && k[len(kind)] == ':' {
